@@ -10,11 +10,16 @@ the three `switch` statements as case tables (`form1`, `formMem`, `formReg`); na
 Proved here:
 * `C15_87c_tables`   – operand counts of all cases of the three tables (decided over the complete tables);
 * `C15_87c_length`   – decoded length = bytes consumed (the C counter `nData`), at most 4, fixed by the two opcode bytes;
+* `C15_87c_no_hang`  – every decode reports a positive length or writes an error message (no case loops, none reports length 0
+                       silently); `C15_87c_inv16_is_unknown`: the byte pairs that used to loop are listed as data;
 * `C15_87c_honest`   – `Honest` (every byte of a reported instruction lies in the image) under `Whole`, the same kind of
                        hypothesis the 6800 needs, so that `C15_areas_inside` instantiates: `C15_87c_areas_inside`;
-* `C15_finding_87c_*` – the defects of deco87c800.c the model transcribes, as facts about the model.
-The round trip against code87c800.c is in `C15_87c_roundtrip_partial` (below; see its comment for what it covers).  Not proved
-(tested against the real tools every run): the text rendering against asl's parser, label definition and lookup. -/
+* `C15_87c_jump_roundtrip_partial` / `C15_87c_jump_text_roundtrip` – jumps and calls against code87c800.c, on evaluated operands
+                       and on the printed text;
+* `C15_87c_numbers_have_suffix`, `C15_87c_symbol_is_last`, `C15_87c_reg16_names`, `C15_87c_returns_end_trace`,
+  `C15_87c_dw_starts_with_digit` – the five repaired defects as positive facts about the model of the repaired code;
+* `C15_finding_87c_*` – the remaining oddities of deco87c800.c the model transcribes.
+Not proved (tested against the real tools every run): the text of the non-jump instructions against asl's parser. -/
 namespace AslModel.Dis
 open M87C
 open AslModel.Generated
@@ -27,9 +32,8 @@ theorem C15_87c_tables :
     (∀ src, src < 8 → ∀ op, op < 256 → formRegOk src op = true) :=
   ⟨form1_ok, formMem_ok, formReg_ok⟩
 
-/-- Decoded length of an instruction line: the callback reports what `raw` computed; that is 0 (nothing decoded: failed fetch or
-the `inv16` loop) or `lenOf op op2 ≤ 4` for the opcode byte fetched at `a` and the second opcode byte fetched behind the prefix
-(any value if `op` is no prefix); and when the callback wrote no message (no failed fetch, no `unknown … opcode`), the C counter
+/-- Decoded length of an instruction line: the callback reports what `raw` computed; that is 0 (nothing decoded: a failed fetch) or `lenOf op op2 ≤ 4` for the opcode byte fetched at `a` and the second opcode byte fetched behind the prefix
+(any value if `op` is no prefix), never 0 without a message (`C15_87c_no_hang`); and when the callback wrote no message (no failed fetch, no `unknown … opcode`), the C counter
 of retrieved bytes `nData` equals the reported length – so no `; ouch` is appended. -/
 theorem C15_87c_length (img : Image) (lower : Bool) (syms : Syms) (a : Nat) :
     (M87C.disassemble img lower syms a false (-1)).1.len = (M87C.raw img lower syms a false (-1)).info.len ∧
@@ -44,7 +48,7 @@ theorem C15_87c_length (img : Image) (lower : Bool) (syms : Syms) (a : Nat) :
     simp only
     split <;> rfl
   rw [hlen]
-  rcases raw_spec img lower syms a with h0 | ⟨ops, e, op, h1, hop, ⟨op2, hop2, _, hl⟩, hnd⟩
+  rcases raw_spec img lower syms a with ⟨h0, _⟩ | ⟨ops, e, op, h1, hop, ⟨op2, hop2, _, hl⟩, hnd⟩
   · refine ⟨rfl, by omega, Or.inl h0, fun h => absurd h0 h⟩
   · have hop' : op < 256 := by rw [hop]; exact getD_lt ops (retrieveData_lt img lower a 1 ops e h1) 0
     refine ⟨rfl, by rw [hl]; exact lenOf_le op op2 hop' hop2, Or.inr ⟨op, op2, hop', hop2, hl⟩, ?_⟩
@@ -83,7 +87,7 @@ theorem C15_87c_honest_at (img : Image) (lower : Bool) (syms : Syms) (a : Nat) (
     ∀ x, a ≤ x → x < a + (M87C.disassemble img lower syms a false (-1)).1.len → inImage img x := by
   intro x hx1 hx2
   rw [(C15_87c_length img lower syms a).1] at hx2
-  rcases raw_spec img lower syms a with h0 | ⟨ops, e, op, h1, hop, ⟨op2, _, hpre, hl⟩, _⟩
+  rcases raw_spec img lower syms a with ⟨h0, _⟩ | ⟨ops, e, op, h1, hop, ⟨op2, _, hpre, hl⟩, _⟩
   · omega
   · rw [retrieveData_one img lower a ha] at h1
     cases hr : retrieve img a 1 with
@@ -178,11 +182,9 @@ the two-byte `callp` form, see `C15_87c_call_page_ff_not_canonical`).
 
 What is covered: the distance arithmetic (5-bit and 8-bit, wrap at 64K), the condition names against the assembler's condition
 table (generated from InitFields()), the accepted ranges (generated from the comparisons in the decoders), opcode composition,
-page rule of `callp`, and (`shape_ok`) that the printed line is `<mnemonic/condition><symbol>h` for every jump form.
-Not covered (hence `_partial`): all non-jump instructions; how asl reads the printed text – in particular the `h` behind the
-symbol makes the real asl reject it (known finding `deco87c800-label-h-suffix`), label definition and lookup.
-
-Full statement that does not hold: the same for the text `SrcLine` through asl's parser – fails for every jump. -/
+page rule of `callp`, and (`shape_ok`) that the printed line is `<mnemonic/condition><symbol>` for every jump form.
+Not covered (hence `_partial`): all non-jump instructions.  The printed text through asl's statement parser is
+`C15_87c_jump_text_roundtrip` below. -/
 theorem C15_87c_jump_roundtrip_partial (a op : Nat) (data : List Nat) (f : M87C.Form) (js : JStmt)
     (hop : op < 256) (hf : M87C.form1 op = .plain f) (hlen : data.length = f.n) (hd : ∀ d ∈ data, d < 256)
     (ha : a < 0x10000) (hjs : jumpStmt a op data = some js)
@@ -305,8 +307,116 @@ theorem C15_87c_jump_roundtrip_partial (a op : Nat) (data : List Nat) (f : M87C.
       have : ¬ (k ≥ 16) := by omega
       simp only [mk, encode, this, if_false, h2]
 
+open A87C in
+/-- Round trip of the jumps and calls on the printed TEXT: for every address, jump form and operand bytes as in
+`C15_87c_jump_roundtrip_partial`, the line `Disassemble_87C800` writes into `SrcLine` (the format of the case rendered with the
+symbol `sym` that `MakeSymbolic` returned) is read back by the model of asl's statement parser and code87c800.c
+(`A87C.assembleText`: comment stripping, op part / arguments, `InstTable` of `InitFields()`, argument counts, symbol lookup,
+the decoders) to exactly `op :: data` – provided the symbol is a plain label (not a 16-bit register name) whose value in the
+assembler's symbol table is the target address; for `callv` nothing is required of the symbol (it stands in a comment).
+dasl defines the labels it invents by the framing lines `lab_XXXX:`; that part (label definition) is tested, not proved. -/
+theorem C15_87c_jump_text_roundtrip (env : A6800.Env) (lower : Bool) (a op : Nat) (data : List Nat) (f : M87C.Form) (js : JStmt)
+    (sym : String) (hop : op < 256) (hf : M87C.form1 op = .plain f) (hlen : data.length = f.n) (hd : ∀ d ∈ data, d < 256)
+    (ha : a + 1 + f.n ≤ 0x10000) (hjs : jumpStmt a op data = some js)
+    (hcall : ¬ (op = 0xfc ∧ data.getD 1 0 = 0xff))
+    (hsym : (∃ n, js = .callv n) ∨
+      (A6800.plainLabel sym.toList = true ∧ isReg16Name sym.toList = false ∧ env sym.toList = some (targetOf js))) :
+    assembleText env a (M87C.render lower data "" sym f.pieces).toList = some (op :: data) := by
+  have henc := C15_87c_jump_roundtrip_partial a op data f js hop hf hlen hd (by omega) hjs hcall
+  have hok := shape_ok op hop
+  have htx := shapeText_ok op hop
+  unfold shapeOk at hok
+  unfold shapeTextOk at htx
+  have hjs' := hjs
+  unfold jumpStmt at hjs'
+  cases hs : shape op with
+  | none => simp [hs] at hjs'
+  | some p =>
+    obtain ⟨sh, j⟩ := p
+    simp only [hs, hf, Bool.and_eq_true, beq_iff_eq] at hok
+    simp only [hs] at htx
+    obtain ⟨⟨_, hpieces⟩, hrest⟩ := hok
+    have htext : (M87C.render lower data "" sym f.pieces).toList = (head sh).toList ++ sym.toList := by
+      rw [hpieces]
+      simp [M87C.render, M87C.renderPiece, String.join, String.toList_append]
+    have hparse : parseStmt env ((head sh).toList ++ sym.toList) = some js := by
+      cases sh with
+      | callv k =>
+        cases j <;> simp only [Bool.and_eq_true, beq_iff_eq, decide_eq_true_eq, Bool.false_eq_true] at hrest
+        simp only [hs, Option.some.injEq] at hjs'
+        rw [← hjs']
+        exact parse_printed_callv env k hrest.1.2 _
+      | jrs c =>
+        rcases hsym with ⟨n, hn⟩ | ⟨h1, h2, h3⟩
+        · cases j <;> simp [hs, mk, hn] at hjs'
+        · cases j <;> simp only [Bool.false_eq_true] at hrest
+          simp only [hs] at hjs'
+          obtain ⟨t, _, ht⟩ := Option.map_eq_some_iff.mp hjs'
+          rw [← ht] at h3 ⊢
+          exact parse_printed env (.jrs c) _ t (by intro n h; cases h) (fun c' hc' => by
+            simp only [condL, Option.some.injEq] at hc'; subst hc'; simpa [condL] using htx) h1 h2 (by simpa [mk, targetOf] using h3)
+      | jr c =>
+        rcases hsym with ⟨n, hn⟩ | ⟨h1, h2, h3⟩
+        · cases j <;> simp [hs, mk, hn] at hjs'
+        · cases c with
+          | none =>
+            cases j <;> simp only [Bool.false_eq_true] at hrest
+            simp only [hs] at hjs'
+            obtain ⟨t, _, ht⟩ := Option.map_eq_some_iff.mp hjs'
+            rw [← ht] at h3 ⊢
+            exact parse_printed env (.jr none) _ t (by intro n h; cases h) (fun c' hc' => by simp [condL] at hc') h1 h2
+              (by simpa [mk, targetOf] using h3)
+          | some cn =>
+            cases j <;> simp only [Bool.false_eq_true] at hrest
+            simp only [hs] at hjs'
+            obtain ⟨t, _, ht⟩ := Option.map_eq_some_iff.mp hjs'
+            rw [← ht] at h3 ⊢
+            exact parse_printed env (.jr (some cn)) _ t (by intro n h; cases h) (fun c' hc' => by
+              simp only [condL, Option.some.injEq] at hc'; subst hc'; simpa [condL] using htx) h1 h2 (by simpa [mk, targetOf] using h3)
+      | jp =>
+        rcases hsym with ⟨n, hn⟩ | ⟨h1, h2, h3⟩
+        · cases j <;> simp [hs, mk, hn] at hjs'
+        · cases j <;> simp only [Bool.false_eq_true] at hrest
+          simp only [hs] at hjs'
+          obtain ⟨t, _, ht⟩ := Option.map_eq_some_iff.mp hjs'
+          rw [← ht] at h3 ⊢
+          exact parse_printed env .jp _ t (by intro n h; cases h) (fun c' hc' => by simp [condL] at hc') h1 h2
+            (by simpa [mk, targetOf] using h3)
+      | call =>
+        rcases hsym with ⟨n, hn⟩ | ⟨h1, h2, h3⟩
+        · cases j <;> simp [hs, mk, hn] at hjs'
+        · cases j <;> simp only [Bool.false_eq_true] at hrest
+          simp only [hs] at hjs'
+          obtain ⟨t, _, ht⟩ := Option.map_eq_some_iff.mp hjs'
+          rw [← ht] at h3 ⊢
+          exact parse_printed env .call _ t (by intro n h; cases h) (fun c' hc' => by simp [condL] at hc') h1 h2
+            (by simpa [mk, targetOf] using h3)
+      | callp =>
+        rcases hsym with ⟨n, hn⟩ | ⟨h1, h2, h3⟩
+        · cases j <;> simp [hs, mk, hn] at hjs'
+        · cases j <;> simp only [Bool.false_eq_true] at hrest
+          simp only [hs] at hjs'
+          obtain ⟨t, _, ht⟩ := Option.map_eq_some_iff.mp hjs'
+          rw [← ht] at h3 ⊢
+          exact parse_printed env .callp _ t (by intro n h; cases h) (fun c' hc' => by simp [condL] at hc') h1 h2
+            (by simpa [mk, targetOf] using h3)
+    unfold assembleText
+    rw [htext, hparse]
+    simp only [henc, List.length_cons, hlen]
+    have : a + (f.n + 1) ≤ 0x10000 := by omega
+    simp [this]
+
+/-- non-vacuity: `jr cs,lab_1012` printed for D2 10 at 1000h is read back to D2 10 when `lab_1012` has the value 1012h -/
+example : M87C.render false [0x10] "" "lab_1012" [.s "jr\tcs,", .sym] = "jr\tcs,lab_1012" ∧
+    A87C.assembleText (fun s => if s = "lab_1012".toList then some 0x1012 else none) 0x1000 "jr\tcs,lab_1012".toList = some [0xd2, 0x10] ∧
+    A87C.assembleText (fun _ => none) 0x1000 "callv\t3\t ; subv_1234".toList = some [0xc3] ∧
+    A6800.plainLabel "lab_1012".toList = true ∧ A87C.isReg16Name "lab_1012".toList = false := by decide +kernel
+
+/-- the hypotheses on the symbol are needed: a label that is spelled like a 16-bit register selects the register form -/
+example : A87C.isReg16Name "hl".toList = true ∧ A6800.plainLabel "hl".toList = true := by decide +kernel
+
 /-- non-vacuity: `jr cs,<1012h>` (D2 10) at 1000h and `jrs f,<0FFFh>` (BD) at 1000h -/
-example : M87C.form1 0xd2 = .plain ⟨1, true, .rel8, [.s "jr\tcs,", .sym, .s "h"], none⟩ ∧
+example : M87C.form1 0xd2 = .plain ⟨1, true, .rel8, [.s "jr\tcs,", .sym], none⟩ ∧
     A87C.jumpStmt 0x1000 0xd2 [0x10] = some (.jr (some "cs") 0x1012) ∧ A87C.encode 0x1000 (.jr (some "cs") 0x1012) = some [0xd2, 0x10] ∧
     A87C.jumpStmt 0x1000 0xbd [] = some (.jrs "f" 0x0fff) ∧ A87C.encode 0x1000 (.jrs "f" 0x0fff) = some [0xbd] := by decide +kernel
 
@@ -323,23 +433,88 @@ theorem C15_87c_jump_ranges_sharp :
     A87C.encode 0x1000 (.jr none (0x1002 - 128)) = some [0xfb, 0x80] ∧ A87C.encode 0x1000 (.jr none (0x1002 - 129)) = none ∧
     A87C.encode 0x1000 (.callp 0xfe12) = none ∧ A87C.encode 0x1000 (.callp 0x0012) = some [0xfd, 0x12] := by decide +kernel
 
-/-! ### defects of deco87c800.c the model transcribes (known findings of C15) -/
+/-! ### the five repaired defects, as positive facts about the model of the repaired deco87c800.c -/
 
-/-- `goto inv16` with a register prefix EC…EF: every 16-bit register operation behind it (`mul`, `div`, `retn`'s slot, `pop`, `push`,
-`xch rr,rr`, `ld rr,rr`, `alu wa,rr`, `alu rr,nn`, `ld sp,rr`, `ld rr,sp`, `call rr`, `jp rr`) never returns.  Known finding
-`deco87c800-inv16-endless-loop`. -/
-theorem C15_finding_87c_inv16_hang :
-    ∀ src, src < 8 → 3 < src → ∀ op2, op2 ∈ [0x02, 0x03, 0x04, 0x06, 0x07, 0x10, 0x13, 0x14, 0x17, 0x30, 0x37, 0x38, 0x3f, 0xfa, 0xfb, 0xfc, 0xfe] →
-      formReg src op2 = .hang := by decide +kernel
+/-- no case of `Disassemble_87C800`, `MemPrefix`, `RegPrefix` loops or reports length 0 silently: an instruction line has a
+positive length or the callback wrote a message (a failed `RetrieveData`) -/
+theorem C15_87c_no_hang (img : Image) (lower : Bool) (syms : Syms) (a : Nat) :
+    0 < (M87C.disassemble img lower syms a false (-1)).1.len ∨ (M87C.disassemble img lower syms a false (-1)).2.2 ≠ [] := by
+  have hmsg : (M87C.disassemble img lower syms a false (-1)).2.2 = (M87C.raw img lower syms a false (-1)).msgs := by
+    unfold M87C.disassemble
+    simp only
+    split <;> rfl
+  rw [(C15_87c_length img lower syms a).1, hmsg]
+  rcases raw_spec img lower syms a with ⟨_, hm⟩ | ⟨ops, e, op, h1, hop, ⟨op2, _, _, hl⟩, _⟩
+  · exact Or.inr hm
+  · left
+    rw [hl]
+    unfold lenOf
+    cases form1 op with
+    | unknown => simp
+    | plain f => simp; omega
+    | mem n k => cases hm : formMem op2 <;> simp <;> omega
+    | reg src =>
+      simp only []
+      cases hr : formReg src op2 with
+      | ok f => simp only []; omega
+      | unknown => simp only []; omega
 
-/-- …and nothing else does: behind the prefixes E8…EB (16-bit registers exist) no case hangs -/
-theorem C15_87c_no_hang_below_4 : ∀ src, src < 4 → ∀ op2, op2 < 256 → formReg src op2 ≠ .hang := by decide +kernel
+/-- `goto inv16` (a 16-bit register operation behind a prefix EC…EF, and E9…EF 04) ends in the `default:` branch: the bytes are
+reported as an unknown register-prefix opcode and listed as data of length 2 -/
+theorem C15_87c_inv16_is_unknown :
+    (∀ src, src < 8 → 3 < src → ∀ op2, op2 ∈ [0x02, 0x03, 0x04, 0x06, 0x07, 0x10, 0x13, 0x14, 0x17, 0x30, 0x37, 0x38, 0x3f, 0xfa, 0xfb, 0xfc, 0xfe] →
+      formReg src op2 = .unknown) ∧
+    (∀ src, src < 8 → 0 < src → formReg src 0x04 = .unknown) ∧
+    (M87C.disassemble [⟨0x1000, [0xec, 0x02, 0x05]⟩] false {} 0x1000 false (-1)).1.len = 2 := by
+  refine ⟨by decide +kernel, by decide +kernel, by decide +kernel⟩
 
-/-- `ret`, `reti` and `retn` are given a successor address (tracing continues behind them, into whatever follows) -/
-theorem C15_finding_87c_ret_has_successor :
-    (match form1 0x05 with | .plain f => f.simple | _ => false) = true ∧
-    (match form1 0x04 with | .plain f => f.simple | _ => false) = true ∧
-    (match formReg 0 0x04 with | .ok f => f.simple | _ => false) = true := by decide +kernel
+/-- `ret`, `reti` and `retn` end the trace: no successor address -/
+theorem C15_87c_returns_end_trace :
+    (match form1 0x05 with | .plain f => f.simple || f.jump != .none | _ => true) = false ∧
+    (match form1 0x04 with | .plain f => f.simple || f.jump != .none | _ => true) = false ∧
+    (match formReg 0 0x04 with | .ok f => f.simple || f.jump != .none | _ => true) = false ∧
+    (M87C.disassemble [⟨0x1000, [0x05, 0xec, 0x02]⟩] false {} 0x1000 false (-1)).1.nexts = [] := by decide +kernel
+
+/-- every number a case prints (`ZeroHexString` of operand bytes) is followed by the hex suffix `h` -/
+def suffixed : List Piece → Bool
+  | .h8 _ :: .s t :: rest => t.startsWith "h" && suffixed (.s t :: rest)
+  | .h16 _ :: .s t :: rest => t.startsWith "h" && suffixed (.s t :: rest)
+  | .h8 _ :: _ => false
+  | .h16 _ :: _ => false
+  | _ :: rest => suffixed rest
+  | [] => true
+
+theorem C15_87c_numbers_have_suffix :
+    (∀ op, op < 256 → (match form1 op with | .plain f => suffixed f.pieces | _ => true) = true) ∧
+    (∀ op, op < 256 → (match formMem op with | some f => suffixed f.pieces | none => true) = true) ∧
+    (∀ src, src < 8 → ∀ op, op < 256 → (match formReg src op with | .ok f => suffixed f.pieces | _ => true) = true) := by
+  refine ⟨by decide +kernel, by decide +kernel, by decide +kernel⟩
+
+/-- the symbol `MakeSymbolic` returns is the last thing a case prints: nothing (in particular no `h`) follows a label -/
+theorem C15_87c_symbol_is_last :
+    ∀ op, op < 256 → (match form1 op with | .plain f => !(f.pieces.dropLast.contains .sym) | _ => true) = true := by decide +kernel
+
+/-- `ld sp,rr`, `ld rr,sp`, `call rr`, `jp rr` print the register the prefix byte selects -/
+theorem C15_87c_reg16_names : ∀ src, src < 4 →
+    formReg src 0xfa = .ok (P 0 [.s ("ld\tsp," ++ r16 src)]) ∧ formReg src 0xfb = .ok (P 0 [.s ("ld\t" ++ r16 src ++ ",sp")]) ∧
+    formReg src 0xfc = .ok ⟨0, true, .none, [.s ("call\t" ++ r16 src)], some "indirect jump, investigate here"⟩ ∧
+    formReg src 0xfe = .ok ⟨0, false, .none, [.s ("jp\t" ++ r16 src)], some "indirect jump, investigate here"⟩ := by decide +kernel
+
+/-- the number of a `dw` line starts with a decimal digit, whatever the value (so the assembler reads a number, not a symbol) -/
+theorem C15_87c_dw_starts_with_digit (lower : Bool) (a addrLen : Nat) :
+    ∃ c rest, symbolicHex lower a addrLen = c :: rest ∧ c.isDigit = true := by
+  unfold symbolicHex
+  cases hh : hexChars lower a (addrLen * 2) with
+  | nil => exact ⟨'0', [], rfl, by decide⟩
+  | cons c t =>
+    by_cases h : c.isDigit = true
+    · exact ⟨c, t, by simp [h], h⟩
+    · exact ⟨'0', c :: t, by simp [h], by decide⟩
+
+/-- …for instance F800h (used to be printed as `F800H`) -/
+example : (makeSymbolic false {} 0xf800 2 none).1 = "0F800H" ∧ (makeSymbolic false {} 0x1234 2 none).1 = "1234H" := by decide +kernel
+
+/-! ### remaining oddities of deco87c800.c the model transcribes -/
 
 /-- `ld (hl),<mem>` (memory prefix, 27) is given none, although it is no jump -/
 theorem C15_finding_87c_ld_hl_mem_no_successor :
